@@ -193,7 +193,31 @@ func (s *State) catFacts(r, a, b string) {
 			eq(app("mmin", r), ite(eq(app("nl", a), "0"), app("mmin", b), ite(eq(app("nl", b), "0"), app("mmin", a),
 				app("min2", app("min2", app("mmin", a), app("mmin", b)), app("+", app("lstl", a), app("fstl", b)))))))))
 	}
+	if s.c.strOrder {
+		s.declOrder()
+		s.assume(implies(bothWf, eq(app("nsx", r), app("cat", app("nsx", a), app("nsx", b)))))
+		s.nsxBasics(a)
+		s.nsxBasics(b)
+		s.nsxBasics(r)
+	}
 	s.cellAutomatonFacts(r)
+}
+
+// nsx(s): s with its blank cells (white space, newlines) removed -- the order-preserving content of a
+// cell-language string (a homomorphism; defined cell by cell in cells.go)
+func (s *State) declOrder() {
+	s.c.declare("nsx", "(declare-fun nsx (Str) Str)\n(assert (= (nsx emp) emp))\n(assert (forall ((a Str) (b Str) (c Str)) (! (= (cat (cat a b) c) (cat a (cat b c))) :pattern ((cat (cat a b) c)))))")
+}
+
+func (s *State) nsxBasics(a string) {
+	s.declOrder()
+	s.assume(implies(and(app("wf", a), eq(app("nsc", a), "0")), eq(app("nsx", a), "emp")))
+	s.assume(implies(and(app("wf", a), eq(app("nl", a), "0"), eq(app("nsc", a), app("vlen", a))), eq(app("nsx", a), a)))
+	if txt, ok := s.c.litText[a]; ok {
+		if x, ok := refNsx(txt); ok {
+			s.assume(eq(app("nsx", a), s.c.lit(x)))
+		}
+	}
 }
 
 func (s *State) strBasics(a string) {
